@@ -17,6 +17,11 @@ MAIN = b'#diffx: version=1.0\n'
 A15 = [b'a', b'B', b'7', b'_', b'-', b'.', b'/', b' ', b',', b'=', b'#',
        b':', b'+', b'\t', b'\xc3', b'%']
 A8 = [b'a', b'1', b'_', b'/', b' ', b',', b'=', b'+']
+# for files whose header lines end in CRLF: stray CRs anywhere in the tail
+A8C = [b'a', b'1', b'\r', b'_', b' ', b',', b'=', b'+']
+# what may stand between / around two well-formed pairs
+JUNK = [b',', b' ', b'+', b':', b'#', b'=', b'\t', b'\xff', b'%', b'a',
+        b'1', b'.', b'-', b'/', b'_', b'\r', b';', b'"', b'\x00']
 
 
 def judge_line(line, crlf=False):
@@ -94,12 +99,64 @@ def chunks(tier, seed):
         for b in range(len(A8)):
             out.append(('A8', (a, b), l8))
 
+    out.append(('A8C', (), 1))
+
+    for a in range(len(A8C)):
+        for b in range(len(A8C)):
+            out.append(('A8C', (a, b), l8 - 1))
+
+    for a in range(len(JUNK) + 1):
+        out.append(('SEP', a, 3 if tier == 'quick' else 4))
+
     return out
+
+
+def run_sep_chunk(chunk, st):
+    """Two (three) well-formed pairs with every short junk string where
+    the separator belongs, optionally one junk byte in front."""
+    _which, a, maxlen = chunk
+    lead = b'' if a == len(JUNK) else JUNK[a]
+    evals = nontrivial = valid = 0
+    sample = None
+
+    for n in range(0, maxlen + 1):
+        for sep in itertools.product(JUNK, repeat=n):
+            sep = b''.join(sep)
+
+            for shape in (b' %sa=b%sc=d', b' %sa=b, e=f%sc=d',
+                          b' %sa=b%sc=d, e=f'):
+                for crlf in (False, True):
+                    line = b'#.change:' + shape % (lead, sep)
+
+                    if b'\r' in line and not crlf:
+                        continue
+
+                    res = judge_line(line, crlf)
+                    evals += 1
+                    nontrivial += 1
+
+                    if spec.parse_header(line) is not None:
+                        valid += 1
+
+                        if sample is None:
+                            sample = {'line': line, 'crlf': crlf}
+
+                    if res is not None:
+                        st.violation(res[0], res[1],
+                                     {'line': line, 'crlf': crlf})
+
+    st.bulk(evals, nontrivial, classes={'valid-by-grammar': valid},
+            sample=sample)
 
 
 def run_chunk(chunk, st):
     which, head, maxlen = chunk
-    alphabet = A15 if which == 'A15' else A8
+
+    if which == 'SEP':
+        return run_sep_chunk(chunk, st)
+
+    alphabet = {'A15': A15, 'A8': A8, 'A8C': A8C}[which]
+    crlf = which == 'A8C'
     evals = 0
     nontrivial = 0
     sample = None
@@ -116,7 +173,7 @@ def run_chunk(chunk, st):
         for tail in itertools.product(alphabet, repeat=n):
             t = hb + b''.join(tail)
             line = b'#.change:' + t
-            res = judge_line(line)
+            res = judge_line(line, crlf)
             evals += 1
 
             if b'=' in t:
@@ -129,7 +186,7 @@ def run_chunk(chunk, st):
                     sample = {'line': line}
 
             if res is not None:
-                st.violation(res[0], res[1], {'line': line})
+                st.violation(res[0], res[1], {'line': line, 'crlf': crlf})
 
     st.bulk(evals, nontrivial, classes={'valid-by-grammar': valid},
             sample=sample)
@@ -300,12 +357,16 @@ def checks():
             'exhaustive', chunks, run_chunk, run_case=run_case,
             rule='line "#.change:" + every tail over the 16-byte alphabet '
                  '{a B 7 _ - . / SP , = # : + TAB 0xC3 %} up to length L15 and '
-                 'over {a 1 _ / SP , = +} up to length L8, placed after a '
+                 'over {a 1 _ / SP , = +} up to length L8, over {a 1 CR _ SP '
+                 ', = +} up to length L8 - 1 in a file with CRLF header '
+                 'lines, and two or three well-formed pairs with every '
+                 'string of up to LS bytes from a 19-byte junk alphabet in '
+                 'place of a separator (LF and CRLF files), placed after a '
                  'valid main header; accepted iff the full line matches the '
                  'grammar, options as parsed; non-trivial = tail contains '
                  '"="; enumerated, hence distinct',
-            bound={'quick': 'L15 = 5, L8 = 7',
-                   'thorough': 'L15 = 6, L8 = 8'}),
+            bound={'quick': 'L15 = 5, L8 = 7, LS = 3',
+                   'thorough': 'L15 = 6, L8 = 8, LS = 4'}),
         HypCheck(
             'grammar-edits', strategy, run_case,
             budget={'quick': (8, 500), 'thorough': (16, 30000)},
